@@ -26,7 +26,8 @@ for d in sorted(glob.glob(os.path.join(root, 'seeded', 'C*-*'))):
     for x in sorted(glob.glob(os.path.join(d, 'detection-*.json'))):
         try:
             o = json.load(open(x))
-            res += '; %s by %s %s (%ss)' % (o.get('result'), o.get('check'), o.get('tier', 'quick'), o.get('seconds', '?'))
+            m = re.search(r'-seed(\d+)\.json$', x)
+            res += '; %s by %s %s%s (%ss)' % (o.get('result'), o.get('check'), o.get('tier', 'quick'), ' at VERIF_SEED=' + m.group(1) if m else '', o.get('seconds', '?'))
         except (OSError, ValueError):
             pass
     flags = ' (rebased)' if 'rebased' in meta and meta.get('status') != 'retired' else ''
